@@ -638,7 +638,7 @@ def run_opack(ctx, D, bench):
     # nesting depth: one Python frame per level
     for depth in (5, 200, 5000):
         rows.append(b"\xD1" * depth + b"\x01")
-    answers = ctx.lean(["unpack " + (bytes(w).hex() or "") for w in rows], driver="Driver/C04Opack.lean")
+    answers = ctx.lean(["unpack " + hx(w) for w in rows], driver="Driver/C04Opack.lean")
     for w, ans in zip(rows, answers):
         impl, r, it = D.opack_(w)
         deep = len(w) > 150 and w[:100] == b"\xD1" * 100
